@@ -346,9 +346,10 @@ sub_divmod (Ctx& c, uint64_t b, uint64_t e)
             // (64-bit x/y is used only to name the culprit in the key, not for the verdict)
             if (!ok) c.fail (std::string (q != x / y ? "divs.int:" : "mods.int:") + sk, i, [&] { return Obj ().kv ("x", x).kv ("y", y).kv ("divs", q).kv ("mods", r).kv ("y*q+r", y * q + r).str (); });
         }
-        // divp: x<0,y>0: (y-1-x) ; x<0,y<0: (-y-1-x)   [x>=0: as divs]
-        bool sub_ok = x >= 0 || fits (ay - 1 - x);
-        if (!sub_ok) { ++n_skip_sub; continue; }
+        // divp/modp are judged wherever no negation overflows (the statement's quantifier).  Pairs where |y|-1-x leaves int
+        // are counted as their own class: the implementation used to compute exactly that expression and returned
+        // divp(-2000000000, 1000000000) == 1 (fixed in /repo, see known_findings.json).
+        if (x < 0 && !fits (ay - 1 - x)) ++n_skip_sub;
         {
             long q = IM::divp ((int) x, (int) y);
             ++n_eval;
@@ -369,15 +370,15 @@ sub_divmod (Ctx& c, uint64_t b, uint64_t e)
     c.cls ("x>=0,y>0", n_sign[0]); c.cls ("x>=0,y<0", n_sign[1]); c.cls ("x<0,y>0", n_sign[2]); c.cls ("x<0,y<0", n_sign[3]);
     c.cls ("exact_division", n_exact); c.cls ("operand_INT_MAX_or_INT_MIN+1", n_extreme);
     c.cls ("skipped_y_zero", n_skip_zero); c.cls ("skipped_negation_overflows", n_skip_neg);
-    c.cls ("skipped_divp_subtraction_overflows", n_skip_sub); c.cls ("skipped_modp_product_overflows", n_skip_mul);
+    c.cls ("divp_large_negative_x_(|y|-1-x_exceeds_int)", n_skip_sub); c.cls ("skipped_modp_product_overflows", n_skip_mul);
 }
 MON_SUB (sub_divmod, "divs_mods_divp_modp_grid", DIV_NQ* DIV_NQ, DIV_NT* DIV_NT)
-    .req ({"x>=0,y>0", "x>=0,y<0", "x<0,y>0", "x<0,y<0", "exact_division", "operand_INT_MAX_or_INT_MIN+1", "skipped_negation_overflows"})
+    .req ({"x>=0,y>0", "x>=0,y<0", "x<0,y>0", "x<0,y<0", "exact_division", "operand_INT_MAX_or_INT_MIN+1", "skipped_negation_overflows", "divp_large_negative_x_(|y|-1-x_exceeds_int)"})
     .exh ()
     .chunked (1u << 14)
     .over ("all ordered pairs (x,y) of a boundary-heavy int set (0,+-1,+-2,+-3,+-7, 2^k and 2^k+-1 for k<=31, INT_MAX, INT_MIN+1, INT_MIN, 4..40, "
-           "sqrt(INT_MAX) neighbours, seeded random fill; 1024 values quick / 4096 thorough); pairs with y = 0 or with an overflowing intermediate "
-           "expression of the implementation are skipped and counted");
+           "sqrt(INT_MAX) neighbours, seeded random fill; 1024 values quick / 4096 thorough); pairs with y = 0, with an overflowing negation "
+           "(-x, -y) or, for modp, an overflowing product y*divp are skipped and counted");
 
 // =====================================================================================
 // abs sign cmp cmpt iszero equal clamp equalWithAbsError equalWithRelError : float / double
